@@ -840,6 +840,10 @@ def path_profile(case):
     if path["kind"] == "api" and path.get("run") is not None:
         return ["receiver: built by run_receiver_task running for real, listen() fails %d times, %s" % (
             len(path["run"].get("drops") or []), ask)]
+    if path["kind"] == "listen":
+        # deps11: a worker that stops while executions are in flight (the stop itself is profiled by C12.stop_profile)
+        return ["receiver: listening for real (Receiver.listen) and told to stop, configured %s, %s" % (
+            "through the worker command line" if path.get("argv") is not None else "directly", ask)]
     if path["kind"] in ("cli", "api"):
         return ["receiver: configured through the %s, %s" % (
             "worker command line" if path["kind"] == "cli" else "programmatic API (run_receiver_task)", ask)]
